@@ -62,6 +62,8 @@ class Env:
                 v = dec(v)
                 if v is None or v == '':
                     continue
+                if isinstance(v, float):
+                    v = float(f'{v:.16g}')      # what the .xlsx holds: openpyxl writes numbers with 16 significant digits
                 d[rc(addr)] = v
             self.cells[s['title']] = d
             self.max_row[s['title']] = max([r for r, _ in d], default=0)
